@@ -1577,10 +1577,9 @@ func (k *Kernel) sendPHCheckResponse(ctx context.Context, s *kState, req PHCheck
 			// but it's not impossible that we've received it particularly late.
 			k.setPHCheckStatus(s, req, &resp, s.Committing, ViewIDCommitting)
 		} else {
-			panic(fmt.Errorf(
-				"TODO: handle proposed block with round (%d) beyond committing round (%d)",
-				pbRound, committingRound,
-			))
+			// A later round at the height that is already committing:
+			// that height is decided, so the proposal is stale.
+			resp.Status = PHCheckRoundTooOld
 		}
 	} else if pbHeight == votingHeight {
 		if pbRound < votingRound {
@@ -1590,10 +1589,8 @@ func (k *Kernel) sendPHCheckResponse(ctx context.Context, s *kState, req PHCheck
 		} else if pbRound == votingRound+1 {
 			k.setPHCheckStatus(s, req, &resp, s.NextRound, ViewIDNextRound)
 		} else {
-			panic(fmt.Errorf(
-				"TODO: handle proposed block with round (%d) beyond voting round (%d)",
-				pbRound, votingRound,
-			))
+			// More than one round past the voting round; we hold no view for it.
+			resp.Status = PHCheckRoundTooFarInFuture
 		}
 	} else if pbHeight == votingHeight+1 {
 		// Special case of the proposed block being for the next height.
